@@ -37,8 +37,13 @@ const TOK31: &[&str] = &[
     "->", "'", "blob", "enum", "{", "}", "use", "ret", "loop", "break", "case",
 ];
 
-const STALL_SECS: u64 = 15; // a worker that writes nothing for this long is killed, its input is *suspected*
-const ALONE_SECS: u64 = 60; // budget of the solitary re-run; only a second timeout is recorded as `timeout`
+// Budgets are CPU time of the worker process (utime + stime of /proc/<pid>/stat), not wall-clock time: on a machine with a
+// load average of 200 an input that needs 0.1 s of CPU can take minutes of wall-clock time, and a wall-clock limit would turn
+// the load into a `timeout` verdict (a false alarm that happened: DESIGN section 15). The wall clock is only a backstop that ends
+// the run as a TOOL ERROR (exit 2, "machine too loaded to decide"), never as a verdict.
+const STALL_SECS: u64 = 15; // CPU seconds: a worker that burns this much without writing a result is killed, its input is *suspected*
+const ALONE_SECS: u64 = 60; // CPU seconds: budget of the solitary re-run; only a second timeout is recorded as `timeout`
+const WALL_BACKSTOP_SECS: u64 = 900; // wall-clock: no result for this long although the CPU budget is not used up => tool error
 const MAX_TIMEOUTS: usize = 8; // after this many recorded timeouts in one universe the recorder gives up: the rest is recorded as `notrun`
 const MAX_DEPTH: usize = 40; // nesting bound of generated/mutated inputs
 const MEM_LIMIT: u64 = 6 << 30; // address-space limit of a worker (a runaway allocation becomes an abort, not an OOM kill of the box)
@@ -105,6 +110,16 @@ struct Case {
     no_std: bool,
     #[serde(default)]
     corpus: bool,
+    /// a HISTORY (SyltPipeline!HistCase): the programs compiled one after the other in one fresh thread; `files` is empty then
+    #[serde(default, skip_serializing_if = "Vec::is_empty")]
+    steps: Vec<Step>,
+}
+
+/// one program of a history (main file is main.sy)
+#[derive(Clone, Debug, Serialize, Deserialize)]
+struct Step {
+    files: BTreeMap<String, String>,
+    no_std: bool,
 }
 
 /// The recorder's own look at a text (token counts, pieces for mutation and minimisation, skeletons). The tokenizer is
@@ -120,15 +135,28 @@ fn tokenizer_panics(text: &str) -> bool {
 }
 
 /// SyltPipeline!FamText: every file under a header line, the main file first, the others by name
-fn fam_text(c: &Case) -> String {
-    let mut names: Vec<&String> = c.files.keys().collect();
-    names.sort_by_key(|n| (**n != c.main, (*n).clone()));
+fn files_text(files: &BTreeMap<String, String>, main: &str) -> String {
+    let mut names: Vec<&String> = files.keys().collect();
+    names.sort_by_key(|n| (*n != main, (*n).clone()));
     let mut s = String::new();
     for n in names {
         s.push_str("## ");
         s.push_str(n);
         s.push('\n');
-        s.push_str(&c.files[n]);
+        s.push_str(&files[n]);
+    }
+    s
+}
+
+/// ... and SyltPipeline!HistText for a history: every program under a line that says whether it is compiled with std
+fn fam_text(c: &Case) -> String {
+    if c.steps.is_empty() {
+        return files_text(&c.files, &c.main);
+    }
+    let mut s = String::new();
+    for st in &c.steps {
+        s.push_str(if st.no_std { "#### nostd\n" } else { "#### std\n" });
+        s.push_str(&files_text(&st.files, "main.sy"));
     }
     s
 }
@@ -186,6 +214,74 @@ fn observe(p: &Project, no_std: bool) -> (Vec<Value>, String, Vec<String>) {
         }
     }
     (evs, ascii(&pmsg), kinds)
+}
+
+const BIG_STACK: usize = 512 << 20;
+
+fn step_project(s: &Step) -> Project {
+    Project { files: s.files.clone(), main: "main.sy".into() }
+}
+
+/// A history: its programs compiled one after the other ON ONE FRESH THREAD (whatever a compilation leaves behind in
+/// thread-local or process-wide state is there for the next one, and nothing of an earlier history of this worker is in
+/// the thread). Events of the runs are separated by `next`; the history stops at the first run that does not finish.
+fn observe_history(steps: &[Step]) -> (Vec<Value>, String) {
+    let steps: Vec<Step> = steps.to_vec();
+    let h = std::thread::Builder::new()
+        .stack_size(BIG_STACK)
+        .spawn(move || {
+            let mut evs = Vec::new();
+            let mut pmsg = String::new();
+            for (k, s) in steps.iter().enumerate() {
+                if k > 0 {
+                    evs.push(ev("next", "-", k + 1, 0, "-"));
+                }
+                let (e, p, _) = observe(&step_project(s), s.no_std);
+                let finished = e.last().map(|x| x["e"] == "finish").unwrap_or(false);
+                evs.extend(e);
+                if !finished {
+                    pmsg = format!("run {} of the history: {}", k + 1, p);
+                    break;
+                }
+            }
+            (evs, pmsg)
+        })
+        .expect("spawn history thread");
+    match h.join() {
+        Ok(r) => r,
+        Err(_) => std::process::exit(3), // a panic outside catch_unwind: the parent records an abort for this input
+    }
+}
+
+/// The verdict {r, st, n} of one program compiled ALONE: first and only compilation of a fresh thread.
+fn observe_alone(s: &Step) -> Value {
+    let s = s.clone();
+    let h = std::thread::Builder::new()
+        .stack_size(BIG_STACK)
+        .spawn(move || {
+            let (e, _, _) = observe(&step_project(&s), s.no_std);
+            match e.get(1) {
+                Some(x) if x["e"] == "ret" && e.last().map(|l| l["e"] == "finish").unwrap_or(false) => json!({"r": x["r"], "st": x["st"], "n": x["n"]}),
+                Some(x) => json!({"r": x["e"], "st": "-", "n": 0}), // panic | render_panic ...: no verdict
+                None => json!({"r": "none", "st": "-", "n": 0}),
+            }
+        })
+        .expect("spawn solo thread");
+    match h.join() {
+        Ok(r) => r,
+        Err(_) => std::process::exit(3),
+    }
+}
+
+fn step_key(s: &Step) -> u64 {
+    let mut content = String::new();
+    for (k, v) in &s.files {
+        content.push_str(k);
+        content.push('\u{1}');
+        content.push_str(v);
+        content.push('\u{2}');
+    }
+    fnv(&format!("{}|{}", s.no_std, content))
 }
 
 /// Negative control: a deliberately wrong observer for a fixed subset of inputs.
@@ -337,6 +433,7 @@ impl Source {
                     main: "main.sy".into(),
                     no_std: true,
                     corpus: false,
+                    steps: Vec::new(),
                 }
             }
             Source::Cases(v) => v[i - 1].clone(),
@@ -364,22 +461,47 @@ fn worker(universe: &str, cases: &str, from: usize, to: usize, out: &str) {
     let mut f = std::fs::OpenOptions::new().create(true).append(true).open(out).unwrap();
     // optional self-test knobs (used only by the check's own isolation self-test)
     let selftest = std::env::var("C07_SELFTEST").unwrap_or_default();
+    let mut alone: std::collections::HashMap<u64, Value> = Default::default();
     for i in from..=to {
         let c = src.case(i);
         if selftest == "hang" && c.id.ends_with(":7") {
+            // a hang that burns CPU, as a compiler that loops does (a sleeping worker is a tool error after the wall-clock backstop)
+            let mut x = 0u64;
             loop {
-                std::thread::sleep(Duration::from_secs(1));
+                x = std::hint::black_box(x.wrapping_add(1));
             }
         }
         if selftest == "abort" && c.id.ends_with(":7") {
             std::process::abort();
         }
         let t0 = Instant::now();
-        let p = project_of(&c, corpus.as_ref());
-        let (mut evs, pmsg, _) = observe(&p, c.no_std);
-        apply_stub(&c.id, &mut evs);
         let mut head = src.head(i);
         let mut content = String::new();
+        let (mut evs, pmsg);
+        if c.steps.is_empty() {
+            let p = project_of(&c, corpus.as_ref());
+            let o = observe(&p, c.no_std);
+            evs = o.0;
+            pmsg = o.1;
+            apply_stub(&c.id, &mut evs);
+            head["ntok"] = json!(c.files.get(&c.main).map(|t| tokens_of(t).len().saturating_sub(1)).unwrap_or(0));
+        } else {
+            // a history. First every program ALONE (once per worker process and distinct program, always in a thread of its
+            // own and before the history), then the history in one fresh thread.
+            let solo: Vec<Value> = c
+                .steps
+                .iter()
+                .map(|s| alone.entry(step_key(s)).or_insert_with(|| observe_alone(s)).clone())
+                .collect();
+            head["solo"] = Value::Array(solo);
+            let o = observe_history(&c.steps);
+            evs = o.0;
+            pmsg = o.1;
+            head["ntok"] = json!(c.steps.iter().map(|s| s.files.get("main.sy").map(|t| tokens_of(t).len().saturating_sub(1)).unwrap_or(0)).sum::<usize>());
+            for s in &c.steps {
+                content.push_str(&format!("{:x}\u{3}", step_key(s)));
+            }
+        }
         for (k, v) in &c.files {
             content.push_str(k);
             content.push('\u{1}');
@@ -387,7 +509,6 @@ fn worker(universe: &str, cases: &str, from: usize, to: usize, out: &str) {
             content.push('\u{2}');
         }
         head["h"] = json!(hex(fnv(&format!("{}|{}|{}|{}", c.main, c.no_std, c.corpus, content))));
-        head["ntok"] = json!(c.files.get(&c.main).map(|t| tokens_of(t).len().saturating_sub(1)).unwrap_or(0));
         let rec = finish_record(head, evs, &pmsg, t0.elapsed().as_millis());
         let mut line = serde_json::to_string(&rec).unwrap();
         line.push('\n');
@@ -406,6 +527,7 @@ struct Slot {
     out: PathBuf,
     offset: usize,
     last_progress: Instant,
+    cpu_mark: f64, // CPU seconds of the worker when it last wrote a result (0 at its start)
     alone: bool,
 }
 
@@ -441,6 +563,23 @@ fn spawn_worker(universe: &str, cases: &str, from: usize, to: usize, out: &Path)
             }
         }
     }
+}
+
+extern "C" {
+    fn sysconf(name: i32) -> i64;
+}
+
+/// CPU seconds (user + system, all threads) the process has consumed so far; None if it is gone.
+fn proc_cpu_secs(pid: u32) -> Option<f64> {
+    let stat = std::fs::read_to_string(format!("/proc/{}/stat", pid)).ok()?;
+    // pid (comm) state ppid pgrp session tty_nr tpgid flags minflt cminflt majflt cmajflt utime stime ...; comm may hold blanks
+    let rest = &stat[stat.rfind(')')? + 1..];
+    let f: Vec<&str> = rest.split_whitespace().collect();
+    let utime: f64 = f.get(11)?.parse().ok()?;
+    let stime: f64 = f.get(12)?.parse().ok()?;
+    let tck = unsafe { sysconf(2) }; // _SC_CLK_TCK
+    let tck = if tck > 0 { tck as f64 } else { 100.0 };
+    Some((utime + stime) / tck)
 }
 
 fn read_from(path: &Path, offset: usize) -> std::io::Result<Vec<u8>> {
@@ -491,7 +630,7 @@ fn run_isolated(universe: &str, cases: &str, first: usize, last: usize, scratch:
                     stats.batches += 1;
                     let out = scratch.join(format!("w{}-{}.ndjson", s, serial));
                     let child = spawn_worker(universe, cases, f, t, &out);
-                    slots[s] = Some(Slot { child, cur: f, to: t, out, offset: 0, last_progress: Instant::now(), alone });
+                    slots[s] = Some(Slot { child, cur: f, to: t, out, offset: 0, last_progress: Instant::now(), cpu_mark: 0.0, alone });
                 }
             }
             let mut release = false;
@@ -510,6 +649,9 @@ fn run_isolated(universe: &str, cases: &str, first: usize, last: usize, scratch:
                                 results[slot.cur - first] = Some(v);
                                 slot.cur += 1;
                                 slot.last_progress = Instant::now();
+                                if let Some(c) = proc_cpu_secs(slot.child.id()) {
+                                    slot.cpu_mark = c;
+                                }
                             }
                             Err(e) => tool_error(&format!("worker wrote bad json: {}", e)),
                         }
@@ -535,12 +677,22 @@ fn run_isolated(universe: &str, cases: &str, first: usize, last: usize, scratch:
                     release = true;
                 } else {
                     let budget = if slot.alone { ALONE_SECS } else { STALL_SECS };
-                    if slot.last_progress.elapsed() > Duration::from_secs(budget) {
+                    let used = proc_cpu_secs(slot.child.id()).map(|c| c - slot.cpu_mark).unwrap_or(0.0);
+                    if used <= budget as f64 && slot.last_progress.elapsed() > Duration::from_secs(WALL_BACKSTOP_SECS) {
+                        // neither a result nor a used-up CPU budget: the machine is too loaded (or the worker sleeps) - no verdict
+                        let _ = slot.child.kill();
+                        let _ = slot.child.wait();
+                        tool_error(&format!(
+                            "machine too loaded to decide: input {} ({}) produced no result within {} s of wall-clock time but its worker used only {:.1} s of its {} s CPU budget",
+                            slot.cur, src.head(slot.cur)["id"], WALL_BACKSTOP_SECS, used, budget
+                        ));
+                    }
+                    if used > budget as f64 {
                         let _ = slot.child.kill();
                         let _ = slot.child.wait();
                         if slot.alone {
                             let evs = vec![ev("start", "-", 0, 0, "-"), ev("timeout", "-", 0, 0, "-")];
-                            let why = format!("no result within {} s alone after a {} s stall in a batch", ALONE_SECS, STALL_SECS);
+                            let why = format!("no result within {} s of CPU time alone after {} s of CPU time without a result in a batch", ALONE_SECS, STALL_SECS);
                             results[slot.cur - first] = Some(finish_record(src.head(slot.cur), evs, &why, ALONE_SECS as u128 * 1000));
                             stats.timeouts += 1;
                         } else {
@@ -759,7 +911,7 @@ const GARBAGE: &[&str] = &[
 fn mk_case(id: String, kind: &str, base: &str, text: String) -> Case {
     let mut files = BTreeMap::new();
     files.insert(base.to_string(), text);
-    Case { id, kind: kind.to_string(), base: base.to_string(), files, main: base.to_string(), no_std: false, corpus: true }
+    Case { id, kind: kind.to_string(), base: base.to_string(), files, main: base.to_string(), no_std: false, corpus: true, steps: Vec::new() }
 }
 
 const EXPR_SNIPPETS: &[&str] = &[
@@ -1194,7 +1346,7 @@ fn gen_projects() -> Vec<Case> {
                         files.insert("sub/d.sy".to_string(), "use /main as m\nuse b\nx :: 3\n".to_string());
                     }
                     let id = format!("proj:{}:b={}:c={}:{}", mt, bt, ct, if no_std { "nostd" } else { "std" });
-                    out.push(Case { id, kind: format!("proj:{}", mt), base: String::new(), files, main: "main.sy".into(), no_std, corpus: false });
+                    out.push(Case { id, kind: format!("proj:{}", mt), base: String::new(), files, main: "main.sy".into(), no_std, corpus: false, steps: Vec::new() });
                 }
             }
         }
@@ -1209,6 +1361,7 @@ fn gen_projects() -> Vec<Case> {
             main: "main.sy".into(),
             no_std,
             corpus: false,
+            steps: Vec::new(),
         });
     }
     out
@@ -1239,6 +1392,18 @@ fn panic_site(pmsg: &str) -> String {
     }
 }
 
+/// CPU seconds of this process plus those of the children it has waited for
+fn self_cpu_secs() -> f64 {
+    let stat = std::fs::read_to_string("/proc/self/stat").unwrap_or_default();
+    let rest = match stat.rfind(')') {
+        Some(i) => &stat[i + 1..],
+        None => return 0.0,
+    };
+    let f: Vec<f64> = rest.split_whitespace().skip(11).take(4).filter_map(|x| x.parse().ok()).collect(); // utime stime cutime cstime
+    let tck = unsafe { sysconf(2) };
+    f.iter().sum::<f64>() / if tck > 0 { tck as f64 } else { 100.0 }
+}
+
 struct Minimiser {
     class: String,
     site: String,
@@ -1247,6 +1412,7 @@ struct Minimiser {
     tests: usize,
     budget: usize,
     t0: Instant,
+    cpu0: f64,
 }
 
 impl Minimiser {
@@ -1265,7 +1431,8 @@ impl Minimiser {
         }
     }
     fn still_fails(&mut self, c: &Case) -> bool {
-        if self.tests >= self.budget || self.t0.elapsed() > Duration::from_secs(90) {
+        // (CPU seconds of this process and of the workers it has waited for: the minimal input must not depend on the load)
+        if self.tests >= self.budget || self_cpu_secs() - self.cpu0 > 90.0 || self.t0.elapsed() > Duration::from_secs(3000) {
             return false;
         }
         let (cl, site) = self.run(c);
@@ -1527,7 +1694,7 @@ fn minimise(case_path: &str) {
     if class != "ok" && class != "timeout" {
         let budget = if class == "abort" { 250 } else { 6000 };
         let corpus = if c.corpus { Some(load_corpus()) } else { None };
-        let mut m = Minimiser { class: class.clone(), site: site.clone(), corpus, scratch: scratch.clone(), tests: 0, budget, t0: Instant::now() };
+        let mut m = Minimiser { class: class.clone(), site: site.clone(), corpus, scratch: scratch.clone(), tests: 0, budget, t0: Instant::now(), cpu0: self_cpu_secs() };
         // 1. without the corpus tree underneath, 2. without std, 3. fewer files, 4. fewer tokens, 5. canonical names
         if best.corpus {
             let mut t = best.clone();
@@ -1680,7 +1847,7 @@ fn main() {
         ("worker", _) => {
             let a = args.clone();
             let h = std::thread::Builder::new()
-                .stack_size(512 << 20)
+                .stack_size(BIG_STACK)
                 .spawn(move || worker(&a[2], &a[3], a[4].parse().unwrap(), a[5].parse().unwrap(), &a[6]))
                 .unwrap();
             if h.join().is_err() {
